@@ -26,10 +26,11 @@ def outcome_of(impl, outs, all_events):
     return ("ok", g.show_norm(g.norm_events(all_events)))
 
 
-def run_deliveries(H3Impl, new_line, deliveries):
-    """deliveries: [(stream_id, bytes, fin)] -> (outcome, ops, outs, model_lines)"""
+def run_deliveries(H3Impl, new_line, deliveries, pre=()):
+    """deliveries: [(stream_id, bytes, fin)] -> (outcome, ops, outs, model_lines);
+    `pre`: op lines run before the deliveries (local sends: `h3.sendheaders <sid> <end>`)"""
     impl = H3Impl()
-    ops = [new_line] + [f"h3.data {sid} {g.hx(d)} {1 if fin else 0}" for sid, d, fin in deliveries]
+    ops = [new_line] + list(pre) + [f"h3.data {sid} {g.hx(d)} {1 if fin else 0}" for sid, d, fin in deliveries]
     outs, mlines, evs = [], [], []
     for line in ops:
         o, m = impl.step(line)
@@ -248,7 +249,10 @@ def roundtrip_case(r, H3Impl, quirks, thorough):
             live += held
             held = []
     new_line = f"h3.new {recv_role} {1 if r.random() < 0.2 else 0} 0 {quirks}"
-    return new_line, order, expected, late_encoder
+    # the receiver may already have finished ITS sending side of a stream (a client that
+    # sent its request with end_stream=True, a server that answered early)
+    pre = [f"h3.sendheaders {sid} 1" for sid in sorted(expected) if r.random() < 0.5]
+    return new_line, order, expected, late_encoder, pre
 
 
 def g_deliveries(sid, parts, fin, lone):
@@ -341,7 +345,28 @@ def main(tier):
         "blocked-push-promise": (1, {3: CTRL, 7: ENC, 0: g.frame(1, hb["resp"]) + g.frame(5, b"\x02" + BLK) + g.frame(0, b"ab")}),
         "blocked-then-fin-only": (0, {6: ENC, 0: g.frame(1, BLK)}),
     }
-    for name, (role, streams) in scen.items():
+    # the local sending side of the stream has ENDED (request sent with end_stream=True /
+    # response already finished) before the peer's blocked HEADERS arrive: the stream is
+    # then "done in both directions" while still waiting for the encoder stream
+    ENC_R = bytes.fromhex("02" "3fe101c696d07abe941094cb6d0a08017d403971966e32ca98b46f")
+    BLK_R = bytes.fromhex("0280d910")       # :status 200 + date, needs the insert of ENC_R
+    scen_sent = {
+        "sent-end:blocked-response": (1, ["h3.sendheaders 0 1"],
+                                      {3: CTRL, 7: ENC_R, 0: g.frame(1, BLK_R) + g.frame(0, b"hello")}),
+        "sent-end:blocked-response-no-body": (1, ["h3.sendheaders 0 1"], {3: CTRL, 7: ENC_R, 0: g.frame(1, BLK_R)}),
+        "sent-end:blocked-trailers": (1, ["h3.sendheaders 0 0", "h3.senddata 0 1"],
+                                      {3: CTRL, 7: ENC_R, 0: g.frame(1, hb["resp"]) + g.frame(0, b"ab") + g.frame(1, BLK_R)}),
+        "sent-end:two-responses": (1, ["h3.sendheaders 0 1", "h3.sendheaders 4 1"],
+                                   {3: CTRL, 7: ENC_R, 0: g.frame(1, BLK_R) + g.frame(0, b"x"), 4: g.frame(1, BLK_R)}),
+        "sent-end:blocked-request": (0, ["h3.sendheaders 0 1"],
+                                     {2: b"\x00" + g.frame(4, b""), 6: ENC, 0: g.frame(1, BLK) + g.frame(0, b"hello")}),
+        "sent-end:unblocked-response": (1, ["h3.sendheaders 0 1"], {3: CTRL, 0: g.frame(1, hb["resp"]) + g.frame(0, b"ab")}),
+    }
+    for name, (role, pre, streams) in scen_sent.items():
+        scen[name] = (role, streams, pre)
+    for name, sc in scen.items():
+        role, streams = sc[0], sc[1]
+        pre = sc[2] if len(sc) > 2 else []
         new_line = f"h3.new {role} 0 0 {quirks}"
         ref = None
         diff = None
@@ -358,8 +383,16 @@ def main(tier):
                 queues[sid] = g_deliveries(sid, parts, fin, lone)
             order = []
             live = sorted(queues)
-            if k == 0:
-                # reference: unidirectional streams first, then each request whole
+            if k in (1, 2):
+                # request/response streams completely (incl. FIN) BEFORE the control and
+                # QPACK encoder streams: whole (k=1) / in random pieces (k=2)
+                if k == 1:
+                    for sid, b in streams.items():
+                        queues[sid] = g_deliveries(sid, [b], sid % 4 < 2, False)
+                for sid in sorted(queues, key=lambda s: (s % 4 >= 2, s)):
+                    order += queues[sid]
+            elif k == 0:
+                # reference: unidirectional streams (encoder stream) first, then each request whole
                 for sid in sorted(queues, key=lambda s: (s % 4 < 2, s)):
                     order += queues[sid]
             else:
@@ -368,7 +401,7 @@ def main(tier):
                     order.append(queues[sid].pop(0))
                     if not queues[sid]:
                         live.remove(sid)
-            oc, ops, outs, mlines, impl = run_deliveries(H3Impl, new_line, order)
+            oc, ops, outs, mlines, impl = run_deliveries(H3Impl, new_line, order, pre)
             batch.add(ops, outs, mlines)
             ctx.count((name, tuple(order)), k > 0)
             if ref is None:
@@ -379,7 +412,8 @@ def main(tier):
             ctx.witness(
                 f"scenario {name}: events depend on how deliveries of different streams are interleaved: "
                 f"{ref[0]} vs {diff[0]}",
-                {"is_client": role, "order_a": [(s, d.hex(), f) for s, d, f in ref[1]], "outcome_a": ref[0],
+                {"is_client": role, "local_sends_before": pre,
+                 "order_a": [(s, d.hex(), f) for s, d, f in ref[1]], "outcome_a": ref[0],
                  "order_b": [(s, d.hex(), f) for s, d, f in diff[1]], "outcome_b": diff[0]},
                 {"defect": name if name == "blocked-push-promise" else "interleaving:" + name})
     batch.finish()
@@ -388,12 +422,14 @@ def main(tier):
     # 3. round trip through the real sending API
     batch = g.Batch(ctx, "roundtrip")
     blocked_seen = 0
+    sent_end_blocked = 0
     for k in range(6000 if thorough else 400):
-        new_line, order, expected, late = roundtrip_case(r, H3Impl, quirks, thorough)
-        oc, ops, outs, mlines, impl = run_deliveries(H3Impl, new_line, order)
+        new_line, order, expected, late, pre = roundtrip_case(r, H3Impl, quirks, thorough)
+        oc, ops, outs, mlines, impl = run_deliveries(H3Impl, new_line, order, pre)
         batch.add(ops, outs, mlines)
         blocked = any(" D:b" in m for m in mlines)
         blocked_seen += blocked
+        sent_end_blocked += bool(blocked and pre)
         ctx.count(tuple(ops), blocked or len(order) > 6)
         problem = None
         if oc[0] != "ok":
@@ -421,6 +457,7 @@ def main(tier):
                         {"defect": defect})
     batch.finish()
     ctx.notes["roundtrip_cases_with_blocked_stream"] = blocked_seen
+    ctx.notes["roundtrip_cases_blocked_after_local_send_ended"] = sent_end_blocked
     ctx.notes["streams_enumerated"] = n_streams
 
     # 4. frame codec
@@ -444,6 +481,8 @@ def main(tier):
         f"WEBTRANSPORT_STREAM, content-length mismatches) as client and server; ALL 2^(n-1) splittings x (FIN on last "
         f"delivery | FIN alone) for streams of <= {ex_max} bytes, {n_rand} random splittings + byte-at-a-time for "
         "longer ones; random interleavings of several streams incl. late QPACK encoder stream (blocked HEADERS, "
+        "trailers, PUSH_PROMISE — also on streams whose LOCAL sending side ended first, with the whole response incl. "
+        "FIN delivered before the control/encoder streams as forced orders 1 and 2; reference = encoder stream first; "
         "trailers, PUSH_PROMISE); round trips of the real send_headers/send_data output with static / literal / "
         "dynamic-table header lists under random chunking and interleaving. Non-trivial = more than one delivery "
         "or a lone FIN (chunking), a non-reference order (interleaving), a blocked stream or > 6 deliveries (round "
